@@ -73,13 +73,14 @@ Record dstore := mkD {
   d_deliv : nat             (* rows of table deliveries *)
 }.
 
-Definition NSCHEMA : nat := 26.
-(** statements 1..9 create the tables every LMTP/IMAP path needs (mailboxes,
-    aliases, messages, subscriptions, addresses, message_parts, deliveries,
-    message_mailbox, message_headers); 10 = outbound_queue, 11..26 indexes *)
-Definition NTABLES : nat := 9.
+Definition NSCHEMA : nat := 27.
+(** statements 1..10 create the tables every LMTP/IMAP path needs (mailboxes,
+    uid_validity_seq (raven da328ca; second statement of the same Exec string,
+    its own autocommit statement), aliases, messages, subscriptions, addresses,
+    message_parts, deliveries, message_mailbox, message_headers);
+    11 = outbound_queue, 12..27 indexes *)
+Definition NTABLES : nat := 10.
 
-Definition empty_store : store := mkStore [] [] 1 [] [] 1.
 Definition absent : dstore := mkD false 0 empty_store [] [] 0.
 
 Definition ready (d : dstore) : bool := d_file d && (NTABLES <=? d_schema d)%nat.
@@ -94,7 +95,9 @@ Definition with_msgs (d : dstore) (l : list msgrec) : dstore :=
 Inductive mstep :=
 | MCreateFile                                   (* sql.Open + PRAGMA foreign_keys: an empty file appears *)
 | MSchema (i : nat)                             (* the i-th (0-based) CREATE ... IF NOT EXISTS *)
-| MInsMailbox (name : str) (t : Z)              (* INSERT INTO mailboxes *)
+| MAllocV (name : str) (t : Z)                  (* nextUIDValidityPerUser: INSERT INTO uid_validity_seq ... ON CONFLICT DO UPDATE ... RETURNING
+                                                   — hands out max(clock t, high-water mark + 1) for mailbox [name] (raven da328ca) *)
+| MInsMailbox (name : str) (v : Z)              (* INSERT INTO mailboxes, with the stamp [v] just handed out *)
 | MTxDefaults (t1 t2 t3 t4 t5 : Z)              (* BEGIN IMMEDIATE; SELECT COUNT again; 5 x INSERT INTO mailboxes; COMMIT
                                                    (raven c479b34) — only issued when the table looked empty *)
 | MInsMessage (want : shape)                    (* INSERT INTO messages *)
@@ -126,7 +129,28 @@ Definition add_part (m : msgrec) := mkMsg (m_id m) (m_hdr m) (m_adr m) (S (m_par
 Definition opt_st (d : dstore) (o : option store) : dstore :=
   match o with Some s => with_st d s | None => d end.
 
-(** createDefaultMailboxes on an empty table *)
+(** CreateMailboxPerUser is two statements (autocommit each unless the caller
+    passed a transaction): the allocator advances the high-water mark of the
+    store's UIDVALIDITY stamps ([gused], whose maximum is [vhigh]) ... *)
+Definition alloc_validity (s : store) (n : str) (t : Z) : store :=
+  mkStore (mboxes s) (links s) (next_msg s) (glog s) (gused s ++ [(n, next_validity s t)]) (gser s).
+(** ... and the INSERT adds the row with that stamp; [None] = UNIQUE(user_id, name)
+    (or the empty name, which the Go code refuses before any statement) *)
+Definition insert_mailbox_row (s : store) (n : str) (v : Z) : option store :=
+  match n with
+  | [] => None
+  | _ => match find_name s n with
+         | Some _ => None
+         | None => Some (mkStore (mboxes s ++ [mkMbox (fresh_id (map mb_id (mboxes s))) n v 1])
+                                 (links s) (next_msg s) (glog s) (gused s) (gser s))
+         end
+  end.
+(** the two statements of one CreateMailboxPerUser call started in state [s] *)
+Definition create_steps (s : store) (n : str) (t : Z) : list mstep :=
+  [MAllocV n t; MInsMailbox n (next_validity s t)].
+
+(** createDefaultMailboxes on an empty table (stamps t1', t1'+1, ... : each
+    default takes its own stamp inside the transaction) *)
 Definition default_rows (s : store) (t1 t2 t3 t4 t5 : Z) : store :=
   fold_left (fun s' nt => match create_mailbox_row s' (fst nt) (snd nt) with
                           | Some (s'', _) => s'' | None => s' end)
@@ -164,9 +188,10 @@ Definition exec (d : dstore) (st : mstep) : dstore :=
   | MSchema i =>
       if d_file d && Nat.eqb i (d_schema d) && (i <? NSCHEMA)%nat
       then mkD true (S i) (d_st d) (d_msgs d) (d_subs d) (d_deliv d) else d
-  | MInsMailbox n t =>
-      if d_file d && (1 <=? d_schema d)%nat
-      then opt_st d (option_map fst (create_mailbox_row (d_st d) n t)) else d
+  | MAllocV n t =>
+      if d_file d && (2 <=? d_schema d)%nat then with_st d (alloc_validity (d_st d) n t) else d
+  | MInsMailbox n v =>
+      if d_file d && (1 <=? d_schema d)%nat then opt_st d (insert_mailbox_row (d_st d) n v) else d
   | MTxDefaults t1 t2 t3 t4 t5 =>
       if d_file d && (1 <=? d_schema d)%nat
       then match mboxes (d_st d) with
@@ -255,7 +280,7 @@ Definition deliver_steps (s : store) (f : str) (t : Z) (sh : shape) : list mstep
     match find_name s f with
     | Some m => ([], s, Some (mb_id m))
     | None => match create_mailbox_row s f t with
-              | Some (s', id) => ([MInsMailbox f t], s', Some id)
+              | Some (s', id) => (create_steps s f t, s', Some id)
               | None => ([], s, None)
               end
     end in
@@ -280,7 +305,7 @@ Fixpoint parent_steps (s : store) (ps : list str) (t : Z) : list mstep :=
     match find_name s p with
     | Some _ => parent_steps s r t
     | None => match create_mailbox_row s p t with
-              | Some (s', _) => MInsMailbox p t :: parent_steps s' r t
+              | Some (s', _) => create_steps s p t ++ parent_steps s' r t
               | None => parent_steps s r t
               end
     end
@@ -323,13 +348,14 @@ Definition base_steps (s : store) (o : op) : list mstep :=
       | [] => []
       | _ =>
         if str_eqb (to_upper name) INBOX then [] else
+        if is_role_ns name then [] else
         match find_name s name with
         | Some _ => []
         | None =>
           let ps := parents_of name in
           parent_steps s ps t ++
           (match create_mailbox_row (after_parents s ps t) name t with
-           | Some _ => [MInsMailbox name t] | None => [] end)
+           | Some _ => create_steps (after_parents s ps t) name t | None => [] end)
         end
       end
   | ODelete name =>
@@ -342,7 +368,7 @@ Definition base_steps (s : store) (o : op) : list mstep :=
         | Some m =>
           match children s name with
           | _ :: _ => []
-          | [] => if existsb (equal_fold name) [S_ "Sent"; S_ "Drafts"; S_ "Trash"] then []
+          | [] => if existsb (str_eqb name) [S_ "Sent"; S_ "Drafts"; S_ "Trash"] then []
                   else [MTxDelete (mb_id m)]
           end
         end
@@ -351,6 +377,7 @@ Definition base_steps (s : store) (o : op) : list mstep :=
       match old, new with
       | [], _ | _, [] => []
       | _, _ =>
+        if is_role_ns new then [] else
         if str_eqb (to_upper new) INBOX then [] else
         if str_eqb (to_upper old) INBOX then
           match find_name s new with
@@ -363,7 +390,7 @@ Definition base_steps (s : store) (o : op) : list mstep :=
               parent_steps s ps t ++
               match create_mailbox_row (after_parents s ps t) new t with
               | None => []
-              | Some (_, nid) => [MInsMailbox new t; MTxReparent (mb_id ib) nid (mb_next ib)]
+              | Some (_, nid) => create_steps (after_parents s ps t) new t ++ [MTxReparent (mb_id ib) nid (mb_next ib)]
               end
             end
           end
@@ -409,72 +436,6 @@ Definition opened (d : dstore) (t1 t2 t3 t4 t5 : Z) : dstore :=
 Definition base_ok (o : op) : bool :=
   match o with ODeliver _ _ | OAppend _ _ => false | _ => true end.
 
-(** CREATE and RENAME as the code is NOW (raven 0c3ee23, 3de38ea, 9ad3652,
-    0a9be9c, 59c8bd8); Model/Ops.v's [op_create] / [op_rename] (shared, owner
-    C03) still describe the code before these commits *)
-Definition op_create7 (s : store) (name0 : str) (t : Z) : store * result :=
-  let name := trim_suffix name0 [SLASH] in
-  match name with
-  | [] => (s, RNo)
-  | _ =>
-    if str_eqb (to_upper name) INBOX then (s, RNo) else
-    match find_name s name with
-    | Some _ => (s, RNo)
-    | None =>
-      let s1 := after_parents s (parents_of name) t in
-      match create_mailbox_row s1 name t with
-      | Some (s2, _) => (s2, ROk)
-      | None => (s1, RNo)
-      end
-    end
-  end.
-
-Definition rename_inbox7 (s : store) (new : str) (t : Z) : store * result :=
-  match find_name s new with
-  | Some _ => (s, RNo)
-  | None =>
-    match find_name s INBOX with
-    | None => (s, RNo)
-    | Some ib =>
-      let s0 := after_parents s (parents_of new) t in        (* autocommit, one by one *)
-      match create_mailbox_row s0 new t with
-      | None => (s0, RNo)
-      | Some (s1, nid) =>
-        match reparent (set_next s1 nid (mb_next ib)) (mb_id ib) nid with
-        | Some s2 => (s2, ROk)
-        | None => (s1, RNo)
-        end
-      end
-    end
-  end.
-
-Definition op_rename7 (s : store) (old new : str) (t : Z) : store * result :=
-  match old, new with
-  | [], _ | _, [] => (s, RBad)
-  | _, _ =>
-    if str_eqb (to_upper new) INBOX then (s, RNo) else
-    if str_eqb (to_upper old) INBOX then rename_inbox7 s new t else
-    match find_name s old with
-    | None => (s, RNo)
-    | Some m =>
-      match find_name s new with
-      | Some _ => (s, RNo)
-      | None =>
-        match rename_tx7 s (mb_id m) old new (parents_of new) t with
-        | Some s2 => (s2, ROk)
-        | None => (s, RNo)          (* rollback: the parents are gone too *)
-        end
-      end
-    end
-  end.
-
-Definition step7 (s : store) (o : op) : store * result :=
-  match o with
-  | OCreate n t => op_create7 s n t
-  | ORename a b t => op_rename7 s a b t
-  | _ => step s o
-  end.
-
 (** result + state: the message-storing operations add one complete [messages]
     row whenever Model/Ops.v's [store_message] ran *)
 Definition big (d : dstore) (o : cop) : dstore * result :=
@@ -498,7 +459,7 @@ Definition big (d : dstore) (o : cop) : dstore * result :=
              (d_subs d) (d_deliv d), r)
       else (d, RNo)
   | CBase o' =>
-      if ready d && base_ok o' then let '(s', r) := step7 (d_st d) o' in (with_st d s', r) else (d, RNo)
+      if ready d && base_ok o' then let '(s', r) := step (d_st d) o' in (with_st d s', r) else (d, RNo)
   | CSubscribe n => if ready d then (exec d (MSubscribe n), ROk) else (d, RNo)
   | CUnsubscribe n =>
       if ready d then (exec d (MUnsubscribe n), if existsb (str_eqb n) (d_subs d) then ROk else RNo)
@@ -529,7 +490,7 @@ Definition recover_and (d : dstore) (o : cop) : dstore * result := big d o.
 (** ---- SQL labels of the micro-steps (for the statement-trace tie) ---------------- *)
 
 Definition SCHEMA_OBJS : list str :=
-  map S_ ["T mailboxes"; "T aliases"; "T messages"; "T subscriptions"; "T addresses";
+  map S_ ["T mailboxes"; "T uid_validity_seq"; "T aliases"; "T messages"; "T subscriptions"; "T addresses";
           "T message_parts"; "T deliveries"; "T message_mailbox"; "T message_headers";
           "T outbound_queue";
           "X idx_mailboxes_user"; "X idx_mailboxes_parent"; "X idx_messages_date";
@@ -584,7 +545,7 @@ Fixpoint run_create_labels (s : store) (ps : list str) (t : Z) : list str :=
     match find_name s p with
     | Some _ => run_create_labels s r t
     | None => match create_mailbox_row s p t with
-              | Some (s', _) => S_ "I mailboxes" :: run_create_labels s' r t
+              | Some (s', _) => S_ "I uid_validity_seq" :: S_ "I mailboxes" :: run_create_labels s' r t
               | None => run_create_labels s r t
               end
     end
@@ -600,8 +561,10 @@ Definition labels (d : dstore) (st : mstep) : list str :=
   match st with
   | MCreateFile => []
   | MSchema i => [nth i SCHEMA_OBJS []]
+  | MAllocV _ _ => [S_ "I uid_validity_seq"]
   | MInsMailbox _ _ => [S_ "I mailboxes"]
-  | MTxDefaults _ _ _ _ _ => S_ "BEGIN IMMEDIATE" :: repeat (S_ "I mailboxes") 5 ++ [L_COMMIT]
+  | MTxDefaults _ _ _ _ _ =>
+      S_ "BEGIN IMMEDIATE" :: flat_map (fun _ : nat => [S_ "I uid_validity_seq"; S_ "I mailboxes"]) (seq 0 5) ++ [L_COMMIT]
   | MInsMessage _ => [S_ "I messages"]
   | MInsHeader _ => [S_ "I message_headers"]
   | MInsAddress _ => [S_ "I addresses"]
